@@ -507,7 +507,15 @@ func analyse(sc Scenario, out *outcome, drv *lib.Driver) *caseResult {
 				// attribute the revert to its cause: a successor block with another parent (the path of
 				// storeTask) is not a mis-numbered answer, even if one was also given
 				ev, _ := drv.Ask(fmt.Sprintf("evidence %d %d", n, h))
-				if !strings.Contains(ev, "successor=true") && wrongNumAnswered(out.log, id, uint64(n), h) {
+				otherCause := false
+				for qi, q := range out.log {
+					if q.Kind == eReverted && q.Num == uint64(n) && id.of(&q.Hash) == h {
+						if c, _ := revertCause(out.log[:qi], q); c == "lying-latest-header" || c == "hash-altered-answer" || c == "stale-successor" {
+							otherCause = true
+						}
+					}
+				}
+				if !otherCause && !strings.Contains(ev, "successor=true") && wrongNumAnswered(out.log, id, uint64(n), h) {
 					viol("revert-decided-on-answer-with-wrong-block-number", fmt.Sprintf(
 						"block %d was reverted because BlockByNumber(%d) was answered with a block of another number (revertTask compares only the hashes)", n, n))
 					cr.hits["revert:on-wrong-number-answer"]++
@@ -872,6 +880,18 @@ func lieScenario(seed uint64, dstNew, withBlock bool) Scenario {
 	return sc
 }
 
+// hashLieScenario (probe for 40dc8b7): a GENUINE reorg — the source's chain became the shorter fork
+// A0..A(c-1), B_c; the node holds A0..A(a-1) — so a revert task really runs; when it asks for block
+// c-1, which both chains share, that one request is answered with the block's Hash field altered.
+func hashLieScenario(seed uint64, dstNew bool) Scenario {
+	r := lib.NewRNG(seed)
+	a := r.Range(4, 8)
+	c := r.Range(2, a-2)
+	return Scenario{Kind: "hashlie", Seed: seed, SrcNew: seed%2 == 0, DstNew: dstNew, Procs: lib.Pick(r, []int{1, 2, 0}), Prestore: a, StartEpoch: 1,
+		Epochs: []EpochSpec{{Add: a}, {Depth: a - c, Add: 1}},
+		Faults: Faults{Rules: []Rule{{Height: uint64(c - 1), Epoch: 1, Action: "hash-altered", Times: 1}}}}
+}
+
 func dynamicScenario(r *lib.RNG, i int) Scenario {
 	sc := Scenario{Kind: "dynamic", Seed: r.Uint64() >> 1, SrcNew: r.Bool(), DstNew: r.Bool()}
 	n0 := r.Range(1, 12)
@@ -1027,6 +1047,7 @@ func main() {
 			scs = append(scs, raceScenario(f.Seed*77+uint64(i), i%2 == 0))
 			scs = append(scs, wrongNumScenario(f.Seed*79+uint64(i), i%2 == 1))
 			scs = append(scs, lieScenario(f.Seed*83+uint64(i), i%2 == 0, i%2 == 1))
+			scs = append(scs, hashLieScenario(f.Seed*89+uint64(i), i%2 == 1))
 		}
 	}
 	// group by GOMAXPROCS (a process-wide setting)
@@ -1063,7 +1084,7 @@ func main() {
 					drv = nil
 				} else {
 					defer drv.Close()
-					// developer aid for self-tests against a repaired tree: C06_MODEL_CFG="1 1 1 1 1"
+					// developer aid for self-tests against a repaired tree: C06_MODEL_CFG="1 1 1 0 0"
 					if c := os.Getenv("C06_MODEL_CFG"); c != "" {
 						if a, err := drv.Ask("cfg " + c); err != nil || a != "ok" {
 							res.Fatalf("driver refused cfg: %v %v", a, err)
